@@ -558,7 +558,7 @@ fn listing_alphabet() -> Vec<(String, [u8; 32])> {
 fn listing_sweep(tier: &str) -> (Vec<Violation>, u64, u64) {
     let alpha = listing_alphabet();
     let k = alpha.len() as u64;
-    let maxlen = if tier == "quick" { 4 } else { 6 };
+    let maxlen = if tier == "quick" { 5 } else { 6 };
     let mut viols = Vec::new();
     let mut n = 0u64;
     let mut with_name = 0u64;
@@ -751,7 +751,7 @@ pub fn run(tier: &str) -> i32 {
     rep.cov("listing_sequences_with_candidate_run", json!(named));
     rep.cov("arbitrary_slot_cases", json!(n3));
     rep.cov("listing_alphabet", json!(listing_alphabet().iter().map(|x| x.0.clone()).collect::<Vec<_>>()));
-    rep.cov("listing_max_len", json!(if tier == "quick" { 4 } else { 6 }));
+    rep.cov("listing_max_len", json!(if tier == "quick" { 5 } else { 6 }));
     rep.cov("samples", json!([
         {"decode": {"fragments": 2, "boundary": "fragment 1 ends with a high surrogate, fragment 2 starts with a low surrogate"}},
         {"listing": ["LFN(start=true,seq=1,csum=good)", "S1", "S2(same checksum)"]},
